@@ -31,7 +31,7 @@ impl<'a> V<'a> {
     fn ec(&mut self, rule: &'static str, clause: impl Into<String>, pos: Pos, msg: impl Into<String>) {
         let mut c: String = clause.into();
         if let Some(x) = self.context {
-            if !c.ends_with(x) && c != x[1..] {
+            if !c.ends_with(x) {
                 c.push_str(x);
             }
         }
